@@ -284,6 +284,9 @@ class Gen:
     def target(self, sc, t):
         """A variable that may receive a value of type `t` now."""
         cands = [n for n in sc.pool if n not in sc.frozen or sc.env.get(n) == frozenset({t})]
+        if not cands:
+            self.nfresh = getattr(self, 'nfresh', 0) + 1
+            return ('h%d' if not sc.nested else 'hh%d') % self.nfresh
         return self.rng.choice(cands)
 
     def cond(self, sc):
@@ -713,6 +716,8 @@ WITNESSES = [
      "def f(c0: bool):\n    x = 1\n    def g0():\n        nonlocal x\n        if c0:\n            x = 'a'\n        return x\n    return g0()\n", [(True,), (False,)]),
     ('closure_out', 'captured_var_rebound_by_calling_statement',
      "def f():\n    x = 1\n    def g0() -> int:\n        return x\n    x = ext_i2s(g0())\n    return x\n", [()]),
+    ('no_fixed_point', 'no_fixed_point_nonmonotone_untyped_assignment',
+     "def f(p0: int, c0: bool):\n    if c0:\n        ext_sink(c0)\n        y = 1\n    for i1 in [1, 2]:\n        y = i1\n        if c0:\n            c = 1\n            y, c = ('s', p0 >= y)\n        ext_sink(c0)\n", [(1, True)]),
     ('sibling_call', 'local_function_called_from_sibling',
      "def f():\n    x = 1\n    def g0():\n        return x\n    g0()\n    def g1():\n        return g0()\n    x = 'a'\n    g1()\n    return x\n", [()]),
 ]
